@@ -400,12 +400,18 @@ def check_C01(tier, seed):
     st2 = validate_sessions("C01", "mc", sess, exhaustive=True, timeout=3000)
     rnd = gen_sessions(seed, 150 if quick else 2500, "C01r")
     st3 = validate_sessions("C01", "rnd", rnd, timeout=3000)
-    return finish("C01", tier, seed, "model_checking", [st1, st2, st3], t0,
+    # the repository's own tests and the manual's examples, as text: the interpreter's parser translates each
+    # line into the specification's AST, the abstract machine must reproduce every response
+    import gentext
+    st4 = validate_sessions("C01", "textual", gentext.test_sessions() + gentext.doc_sessions(), timeout=3000)
+    return finish("C01", tier, seed, "model_checking", [st1, st2, st3, st4], t0,
                   rule="every program of the bounded template grammar (one template per line) is run on the "
                        "abstract machine by TLC with its invariants checked at every step; each terminating "
                        "behaviour and each seeded random program (5-30 lines: loops left early, subroutines, "
                        "nested IF, ON, WHILE, TRON) is executed by the real interpreter and the recorded trace "
-                       "(responses + state probe after every command) must be a behaviour of the specification",
+                       "(responses + state probe after every command) must be a behaviour of the specification; in addition "
+                       "the lines entered by the repository's own tests and the examples of the manual (src/doc) are replayed "
+                       "as text sessions (the interpreter's parser supplies the AST) and validated the same way",
                   assumptions=ASSUME_SESS)
 
 
@@ -547,10 +553,15 @@ def check_C13(tier, seed):
     d = A.session("C13i-list", p3 + [run_])
     d["sweep"] = {"cmd": len(p3), "max": 60, "inspect": None}
     ii.append(d)
+    # INPUT directly followed by STOP / an error (the reply's last field and the stop may fall into one slice)
+    p4 = [A.line(10, A.input_([B])), A.line(20, A.stop()), A.line(30, A.pr(B))]
+    p5 = [A.line(10, A.input_([B, N]), A.pr(A.bin_("idiv", A.I(1), A.I(0)))), A.line(20, A.pr(B))]
+    ii.append(A.session("C13i-stop", p4 + [run_, A.reply("5"), cont_]))
+    ii.append(A.session("C13i-err", p5 + [run_, A.reply("5,6"), A.direct(A.pr(B, ";", N))]))
     st5 = validate_sessions("C13", "inputlist", ii, timeout=3000)
     # quantum independence: the same sessions with different execute() budgets
     qs = []
-    base = gen_sessions(seed + 7, 12 if quick else 150, "C13q") + pick[:40 if quick else 400]
+    base = gen_sessions(seed + 7, 12 if quick else 150, "C13q") + pick[:40 if quick else 400] + [x for x in ii if "sweep" not in x]
     for q in (1, 2, 3, 5, 7, 64, 5000):
         for s_ in base:
             d = dict(s_)
